@@ -62,6 +62,13 @@ func (*timeScalar) CoerceIn(v interface{}) (interface{}, error) {
 	return v, err
 }
 
+// Seconds since the epoch of the first and the last second with a year of
+// four digits, the years RFC 3339 can express.
+const (
+	minTimeSecs = -62167219200 // 0000-01-01T00:00:00Z
+	maxTimeSecs = 253402300799 // 9999-12-31T23:59:59Z
+)
+
 // CoerceOut coerces a result value into a type for the scalar. The time
 // representation is a string.
 func (t *timeScalar) CoerceOut(v interface{}) (interface{}, error) {
@@ -73,10 +80,18 @@ func (t *timeScalar) CoerceOut(v interface{}) (interface{}, error) {
 	case nil:
 		// remains nil
 	case float64:
+		// Not a number fails both comparisons.
+		if !(minTimeSecs <= tv && tv < maxTimeSecs+1) {
+			return nil, fmt.Errorf("%w %v seconds into a Time, RFC 3339 can not express it", ErrCoerce, tv)
+		}
 		secs := int64(tv)
-		tt = time.Unix(0, secs*int64(time.Second)).In(time.UTC).Add(time.Duration((tv - float64(secs)) * float64(time.Second)))
+		tt = time.Unix(secs, 0).In(time.UTC).Add(time.Duration((tv - float64(secs)) * float64(time.Second)))
 	case int64:
-		tt = time.Unix(0, tv*int64(time.Second)).In(time.UTC)
+		// A count of nanoseconds overflows an int64 after the year 2262.
+		if tv < minTimeSecs || maxTimeSecs < tv {
+			return nil, fmt.Errorf("%w %d seconds into a Time, RFC 3339 can not express it", ErrCoerce, tv)
+		}
+		tt = time.Unix(tv, 0).In(time.UTC)
 	case string:
 		tt, err = time.Parse(time.RFC3339Nano, tv)
 	case time.Time:
